@@ -270,11 +270,39 @@ def numeric(K):
                             bad.append({'case': key, 'clause': 'linearity'})
                         if len(F(x1)) != N:
                             bad.append({'case': key, 'clause': 'length'})
+        # independence of the components: every layout (signal / noise, x / y, rows that are identically zero) is filtered exactly as the
+        # same row would be on its own
+        gv(sps=16, R=1e9)
+        N = 2048
+        for order in (2, 4):
+            BW = 0.1 * gv.fs
+            rows = {'random': rng.normal(size=N) + 1j * rng.normal(size=N), 'zero': np.zeros(N, complex), 'tone': np.exp(2j * np.pi * 0.05 * np.arange(N))}
+            alone = {k_: BPF(O(v_), BW, n=order).signal for k_, v_ in rows.items()}
+            for sx, sy, nx, ny in (('random', 'zero', 'tone', 'random'), ('zero', 'random', 'random', 'tone'), ('tone', 'random', None, None), ('zero', 'zero', 'random', 'tone'), ('random', None, 'tone', None), ('zero', None, 'tone', None)):
+                n += 1
+                seen.add(('layout', order, sx, sy, nx, ny))
+                sig = rows[sx] if sy is None else np.array([rows[sx], rows[sy]])
+                noi = None if nx is None else (rows[nx] if ny is None else np.array([rows[nx], rows[ny]]))
+                y = BPF(O(sig, noi), BW, n=order)
+                exp_s = alone[sx] if sy is None else np.array([alone[sx], alone[sy]])
+                exp_n = None if nx is None else (alone[nx] if ny is None else np.array([alone[nx], alone[ny]]))
+                ok = np.allclose(y.signal, exp_s, atol=1e-12) and ((y.noise is None) == (exp_n is None)) and (exp_n is None or np.allclose(y.noise, exp_n, atol=1e-12))
+                if not ok:
+                    bad.append({'case': ('BPF', order), 'clause': 'signal/noise/polarisations filtered independently', 'signal rows': [sx, sy], 'noise rows': [nx, ny]})
+            er = {k_: v_.real for k_, v_ in rows.items()}
+            alone_l = {k_: LPF(E(v_), BW, n=order).signal for k_, v_ in er.items()}
+            for sx, nx in (('random', 'tone'), ('zero', 'random'), ('tone', None)):
+                n += 1
+                seen.add(('layout-lpf', order, sx, nx))
+                y = LPF(E(er[sx], None if nx is None else er[nx]), BW, n=order)
+                ok = np.allclose(y.signal, alone_l[sx], atol=1e-12) and ((y.noise is None) == (nx is None)) and (nx is None or np.allclose(y.noise, alone_l[nx], atol=1e-12))
+                if not ok:
+                    bad.append({'case': ('LPF', order), 'clause': 'signal/noise filtered independently', 'signal': sx, 'noise': nx})
         gv.clean()
         return {'n': n, 'distinct': len(seen), 'bad': bad[:8], 'nbad': len(bad)}
     st, r = native(work, 3000)
     K.bounded('filters', st == 'ok' and r['nbad'] == 0, {'evaluations': r['n'] if st == 'ok' else 0, 'distinct_nontrivial': r['distinct'] if st == 'ok' else 0,
-              'bound': 'cutoff/fs in {0.02,0.1,0.3,0.45} (thorough 7 values), orders {1,2,4,8} (thorough 1..8), fs in {16e9,1e6} (thorough 3); tolerances from the statement (6.0 +- 0.1 dB)',
+              'bound': 'cutoff/fs in {0.02,0.1,0.3,0.45} (thorough 7 values), orders {1,2,4,8} (thorough 1..8), fs in {16e9,1e6} (thorough 3); tolerances from the statement (6.0 +- 0.1 dB); plus signal/noise/polarisation layouts incl. identically-zero rows filtered as the same rows alone',
               'samples': [{'filter': 'LPF', 'order': 4, 'cutoff/fs': 0.1, 'fs': 16e9}], 'failures': r if st == 'ok' else [st, r]})
 
 
